@@ -1,6 +1,7 @@
 package gen
 
 import (
+	"sort"
 	"strings"
 
 	"verif/internal/reflex"
@@ -38,6 +39,10 @@ BIT_REVERSED_POSITIVE SKIP START COUNTER RESTART SYNONYM ADD STORING STORED ENFO
 FIRST LAST`) {
 		PseudoKeywords[w] = true
 	}
+	for w := range PseudoKeywords {
+		pkwList = append(pkwList, w)
+	}
+	sort.Strings(pkwList)
 }
 
 // Normalize lexes text with the reference lexer and applies only the documented canonicalisations.
